@@ -563,6 +563,8 @@ class CliGen:
         self.neg = 10 + rng.below(1000)
         self.nname = 0
         self.feat = set()
+        # few sizes per history: files of equal size are what the hashing stages (and so the cache) work on
+        self.sizes = [rng.choice(SIZES) for _ in range(3)]
 
     def fresh(self):
         if self.profile == "preepoch":
@@ -578,9 +580,9 @@ class CliGen:
     def desc(self, size=None):
         r = self.r
         if size is None:
-            size = r.choice(SIZES)
+            size = r.choice(self.sizes) if r.chance(9, 10) else r.choice(SIZES)
         mods = []
-        for _ in range(r.choice([0, 0, 1, 1, 2])):
+        for _ in range(r.choice([0, 0, 0, 1, 1, 2])):
             mods.append([r.choice(MOD_OFFSETS), r.choice([65, 66, 67])])
         if r.chance(1, 10):
             mods.append([0, 122])
@@ -595,12 +597,12 @@ class CliGen:
         r = self.r
         paths = sorted(self.names)
         k = r.below(14)
-        if len(paths) < 3 or k == 0:
+        if len(paths) < 8 or k == 0:
             p = self.new_name()
-            if paths and r.chance(1, 2):        # a copy or a near copy of an existing file
+            if paths and r.chance(3, 5):        # a copy or a near copy of an existing file
                 src = self.objs[self.names[r.choice(paths)]]["desc"]
                 d = {"size": src["size"], "mods": [list(m) for m in src["mods"]]}
-                if r.chance(1, 2):
+                if r.chance(1, 3):
                     d["mods"].append([r.choice(MOD_OFFSETS), 68])
             else:
                 d = self.desc()
@@ -658,7 +660,7 @@ class CliGen:
             self.names[q] = self.names[p]
             self.feat.add("hard_link")
             return {"op": "link", "path": p, "to": q}
-        if len(paths) > 3:
+        if len(paths) > 8:
             del self.names[p]
             self.feat.add("unlink")
             return {"op": "unlink", "path": p}
@@ -693,7 +695,7 @@ class CliGen:
     def generate(self):
         steps, prev = [], None
         for i in range(self.nsteps):
-            edits = [self.edit() for _ in range((6 + self.r.below(6)) if i == 0 else (1 + self.r.below(4)))]
+            edits = [self.edit() for _ in range((9 + self.r.below(6)) if i == 0 else (1 + self.r.below(4)))]
             cfg = self.run_cfg(prev)
             prev = cfg
             steps.append({"edits": edits, "run": cfg})
@@ -907,6 +909,7 @@ def corpus_histories():
 
 def cli_level(ctx, only=None):
     fclones = core.build_fclones()
+    core.log("[C12] fclones binary ready")
     bindir = os.path.join(ctx.scratch, "bin")
     write_helpers(bindir)
     base_rng = core.SplitMix64(12)          # fixed: replay files do not carry the 140 kB base
@@ -1018,6 +1021,10 @@ def run(ctx):
                     ctx.violation({"kind": kind, "level": "api"}, "cached %s, uncached %s for op %d (%s)" % (got, ref, i, op),
                                   {"level": "api", "line": rp["line"], "op_index": i}, found_input=True)
         return
+    t0 = time.time()
     api_level(ctx, model)
+    core.log("[C12] API level done in %.0f s (%d evaluations)" % (time.time() - t0, ctx.evaluations))
+    t0 = time.time()
     cli_level(ctx)
+    core.log("[C12] CLI level done in %.0f s" % (time.time() - t0))
     ctx.extra["exhaustive"] = False
